@@ -69,10 +69,14 @@ func init() {
 			// rtoMax defaults when 0
 			nm := c.Fn("newRTOManager")
 			okD := false
+			// some value stored to rtoMax is the default constant, chosen under "the configured value is 0"
 			for _, a := range c.storesIn(nm, rmax) {
-				if k, ok := unconv(a.Val).(*ssa.Const); ok && k.Value != nil {
-					f, _ := constant.Float64Val(constant.ToFloat(k.Value))
-					if f == dmax {
+				for _, lf := range leavesWithFacts(a.Val) {
+					k, ok := unconv(lf.Val).(*ssa.Const)
+					if !ok || k.Value == nil {
+						continue
+					}
+					if f, _ := constant.Float64Val(constant.ToFloat(k.Value)); f == dmax {
 						okD = true
 					}
 				}
